@@ -12,7 +12,7 @@ import os
 from ..common import Infra, run_vh, last_json
 from .. import ndarray, tracecheck
 
-C01_EVENTS = {"new", "slice", "read", "set", "apply", "crash"}
+C01_EVENTS = {"new", "slice", "read", "set", "apply", "applyslice", "copyfrom", "crash"}
 
 
 def configs(ctx):
